@@ -127,7 +127,7 @@ pub fn encode_fci(fci: &Fci) -> Vec<u8> {
 
 /// Body (everything after the 4-byte common header, before padding) and the 5-bit count field.
 fn body(p: &Pkt) -> (u8, u8, Vec<u8>) {
-    let mut v = Vec::new();
+    let mut v = Vec::with_capacity(body_len(p) + p.pad() as usize + 8);
     match p {
         Pkt::Sr { ssrc, ntp, rtp, pc, oc, blocks, .. } => {
             be32(&mut v, *ssrc);
@@ -188,10 +188,30 @@ fn body(p: &Pkt) -> (u8, u8, Vec<u8>) {
     }
 }
 
-/// Size in bytes of the encoded packet (defined for any configuration with aligned body).
+/// Length of the body in bytes, computed arithmetically (no image is built).
+pub fn body_len(p: &Pkt) -> usize {
+    match p {
+        Pkt::Sr { blocks, .. } => 24 + 24 * blocks.len(),
+        Pkt::Rr { blocks, .. } => 4 + 24 * blocks.len(),
+        Pkt::Sdes { chunks, .. } => chunks.iter().map(|c| c.wire_len()).sum(),
+        Pkt::Bye { ssrcs, reason, .. } => 4 * ssrcs.len() + if reason.is_empty() { 0 } else { (1 + reason.len() + 3) & !3 },
+        Pkt::App { data, .. } => 8 + data.len(),
+        Pkt::Fb { fci, .. } => {
+            8 + match fci {
+                Fci::Nack(v) => 4 * nack_pack(&Fci::nack_set(v)).len(),
+                Fci::Fir(v) => 8 * Fci::fir_map(v).len(),
+                Fci::Sli(v) => 4 * v.len(),
+                Fci::Rpsi { data, .. } => (2 + data.len() + 3) & !3,
+                Fci::Pli => 0,
+            }
+        }
+        Pkt::Unknown { data, .. } => data.len(),
+    }
+}
+
+/// Size in bytes of the encoded packet (defined for any configuration).
 pub fn encoded_len(p: &Pkt) -> usize {
-    let (_, _, b) = body(p);
-    4 + b.len() + p.pad() as usize
+    4 + body_len(p) + p.pad() as usize
 }
 
 /// The RFC image of a representable packet.
@@ -200,6 +220,7 @@ pub fn encode(p: &Pkt) -> Vec<u8> {
     let pad = p.pad() as usize;
     let total = 4 + b.len() + pad;
     debug_assert!(total % 4 == 0, "encode() called on an unaligned configuration");
+    debug_assert!(b.len() == body_len(p), "body_len() disagrees with body()");
     let mut v = Vec::with_capacity(total);
     v.push(0x80 | if pad > 0 { 0x20 } else { 0 } | (count & 0x1F));
     v.push(pt);
